@@ -1,4 +1,5 @@
 import Driver.OpsRange
+import Driver.OpsDecRange
 import Driver.OpsFields
 import Driver.OpsEngine
 import Driver.OpsFixed
@@ -16,6 +17,7 @@ def dispatch (args : List String) : String :=
   | [] => "bad-op"
   | op :: _ =>
     if op.startsWith "range." || op.startsWith "tok." then opRange args
+    else if op.startsWith "drange." then opDecRange args
     else if op.startsWith "field." then opFields args
     else if op == "engine" then opEngine args
     else if op == "fixed" then opFixed args
